@@ -23,7 +23,7 @@ func init() {
 		Rule: "per case: '$x op $y' for + - * div mod and '-$x' over all boundary x boundary pairs of a sampled boundary subset plus random pairs (bit patterns, divisors in (-1,1), ties, >2^63), floor/ceiling/round over boundary doubles, every k+-0.5 for |k|<=20 and values around 2^52..2^63, sum()/count() over node-sets of numeric, fractional, negative, whitespace-padded and non-numeric text; " +
 			"oracle: Go IEEE arithmetic written independently (math.Mod, floor(x)+tie rule, float summation in document order), bit-pattern comparison incl. sign of zero for the operators, NaN-aware without zero sign for round/floor/ceiling; any error (in particular 'xpath query panic') is a violation. distinct_nontrivial = distinct (operation, operand classes, result class)",
 		Assumptions: []string{"the sign of zero is not judged for round/floor/ceiling (the statement is silent on it)"},
-		NCases:      func(tier string) int { return map[string]int{"quick": 150, "thorough": 6000}[tier] },
+		NCases:      func(tier string) int { return map[string]int{"quick": 2000, "thorough": 80000}[tier] },
 		Case:        c06Case,
 	})
 }
